@@ -42,6 +42,7 @@ class C12(Campaign):
     thorough_runs = 40000
     fault_kinds = ["late-listener@op", "re-attach@op (same object again)", "several instances interleaved",
                    "distinct listener objects that compare and hash equal", "falsy listener objects (__len__ == 0 / __bool__ False)",
+                   "listener objects of one class that differ in instance-level callbacks",
                    "listener attached first to a shallow copy (copy.copy) of the machine, then to the machine",
                    "guard name provided by several objects", "coroutine listener (constructor or late)"]
     rule = ("one run = a generated machine whose callback names (actions of every group, plain-name guards and "
@@ -124,6 +125,18 @@ class C12(Campaign):
             if not names_ok(prog, ["machine", "model"] + nb["listeners"]):
                 nb["listeners"] = list(ctor)
             out.append(nb)
+        if two:
+            # two listener objects of ONE class, attached to different machines, that differ in instance-level
+            # callbacks: what one of them carries says nothing about the other
+            shared = [r_ for r_ in ctor if r_ in nb["listeners"]]
+            if shared and rnd.random() < 0.5:
+                role = rnd.choice(shared)
+                for nm, grp, tag_ in (("on_exit_state", "exit", "B"), ("after_transition", "after", "A"),
+                                      ("on_enter_state", "enter", "B")):
+                    cb_ = f"{role}.{nm}"
+                    if cb_ not in prog["cbs"] and rnd.random() < 0.6:
+                        prog["cbs"][cb_] = {"group": grp, "sig": [gen.P("event"), gen.P("kw", "varkw")],
+                                            "partial": True, "only_for": [tag_]}
         pending = list(late)
         attached = {"A": list(ctor), "B": list(nb["listeners"]) if two else []}
         shallow = (not two) and bool(late) and not is_async_ctor and rnd.random() < 0.2 \
